@@ -648,8 +648,8 @@ class C18(Check):
     def in_domain(self, case, sa):
         if sa is None or sa[0] != "Ok":
             return False
-        if any(a == ["R", "-i"] for _, es in case[1] for _, cc, args in es for a in args):
-            return False          # an ambiguous abbreviation: argparse's business (C11); M models it, S does not read it
+        if any(a in (["R", "-i"], ["R", "-f"]) for _, es in case[1] for _, cc, args in es for a in args):
+            return False          # bare prefixes of several flags (ambiguous / abbreviated): argparse's business (C11); M models them, S does not read them
         return all(balanced(ls) for _, ls in case[0])
 
     def nontrivial(self, case, ia):
